@@ -139,6 +139,12 @@ func VerifyProof(root, key *felt.Felt, proof *ProofNodeSet, hash crypto.HashFn) 
 			}
 			expected = felt.Felt(*cld)
 		case *trienode.ValueNode:
+			// A value is a leaf only once the whole key has been consumed. Accepting a value node
+			// higher up would let the hash of an inner node be passed off as the value of every
+			// key below it (an edge to a value hashes like an edge to a subtree).
+			if keyBits.Len() != 0 {
+				return felt.Zero, fmt.Errorf("proof value node above the leaf level, %d key bits left", keyBits.Len())
+			}
 			return felt.Felt(*cld), nil
 		case *trienode.EdgeNode, *trienode.BinaryNode:
 			if hash, _ := cld.Cache(); hash != nil {
